@@ -18,7 +18,10 @@ ASSUMPTIONS = ['data groups with pairwise distinct names (known finding: same-na
 def cases(seed, tier):
     rng = random.Random(seed * 19 + 17)
     n = 300 if tier == 'quick' else 9000
-    return [L.gen_legacy(rng) for _ in range(n)] + [L.gen_other(rng) for _ in range(n // 2)]
+    out = [L.gen_legacy(rng) for _ in range(n)] + [L.gen_other(rng) for _ in range(n // 2)]
+    for c in out:
+        c['pre'] = rng.choice([None, None, 'emd1', 'plain'])     # what sat at the same path before (and was read) in the same process
+    return out
 
 
 def oracle(c, r):
